@@ -5,7 +5,9 @@ import CminxLemmas.SpecLemmas
 Read off the structural specification (`Item.spec`, `CminxModel/Spec.lean`); `T_agg` says the listener computes
 it.  A `ct_add_test` / `ct_add_section` declaration together with the function/macro definition that implements
 it is one `Item.decl`; `add_test` is an `Item.cmd`.  `nameOk s` (part of well-formedness) = exactly one `NAME`
-among the arguments, not in last position.  Rendering is read off `Entry.toElem` (`CminxModel/DocTypes.lean`).
+among the arguments, not in last position.  The arguments of a `ct_add_test` / `ct_add_section` declaration are its
+single arguments (`Call.singles`); those of an `add_test` are all its arguments in source order, parenthesised
+groups included (`Call.allTexts`, repair D19).  Rendering is read off `Entry.toElem` (`CminxModel/DocTypes.lean`).
 -/
 namespace Cminx
 
@@ -108,15 +110,32 @@ theorem C11_test_named (cfg : Cfg) (ctx : ClsCtx) (doc : Option DocC) (d impl : 
 theorem C11_addtest (cfg : Cfg) (ctx : ClsCtx) (doc : Option DocC) (call : Call)
     (hn : call.lname = lit "add_test") (hincl : doc.isSome = true ∨ cfg.inclAddTest = true) :
     (Item.cmd doc call).spec cfg ctx =
-      { top := [.ctest (nameOf call.singles).1 (docTextOf doc) (ctestParams call.singles)] } :=
+      { top := [.ctest (nameOf call.allTexts).1 (docTextOf doc) (ctestParams call.allTexts)] } :=
   spec_cmd_add_test cfg ctx doc call hn hincl
 
 /-- with the arguments `pre ++ NAME :: nm :: post`: named `nm`, signature `pre ++ post` -/
 theorem C11_addtest_named (cfg : Cfg) (ctx : ClsCtx) (doc : Option DocC) (call : Call) (pre post : List Str) (nm : Str)
     (hn : call.lname = lit "add_test") (hincl : doc.isSome = true ∨ cfg.inclAddTest = true)
-    (hs : call.singles = pre ++ lit "NAME" :: nm :: post) (h1 : lit "NAME" ∉ pre) (h2 : lit "NAME" ∉ nm :: post) :
+    (hs : call.allTexts = pre ++ lit "NAME" :: nm :: post) (h1 : lit "NAME" ∉ pre) (h2 : lit "NAME" ∉ nm :: post) :
     (Item.cmd doc call).spec cfg ctx = { top := [.ctest nm (docTextOf doc) (pre ++ post)] } := by
   rw [C11_addtest cfg ctx doc call hn hincl, hs, nameOf_decomp pre post nm h1 h2, ctestParams_decomp pre post nm h1 h2]
+
+/-- The repaired `add_test` (D19), at the level of a call.  `call.allTexts` are ALL arguments of the call in source
+order, each in its `argument_text` form — a parenthesised group `(a b)` is one argument, exactly as in the
+signature of a generic command.  If they are `pre ++ NAME :: nm :: post` with no other `NAME`, then the command is
+well-formed (so `T_agg` applies: the listener computes the specification, no error is logged) and its entry —
+when documented, or undocumented with `include_undocumented_add_test` — is the CTest test named `nm` whose
+signature is every other argument, groups included, in order. -/
+theorem C11_addtest_all_args (cfg : Cfg) (ctx : ClsCtx) (inClass : Bool) (doc : Option DocC) (call : Call)
+    (pre post : List Str) (nm : Str)
+    (hn : call.lname = lit "add_test") (hincl : doc.isSome = true ∨ cfg.inclAddTest = true)
+    (hs : call.allTexts = pre ++ lit "NAME" :: nm :: post) (h1 : lit "NAME" ∉ pre) (h2 : lit "NAME" ∉ nm :: post) :
+    (Item.cmd doc call).wf inClass = true ∧
+      (Item.cmd doc call).spec cfg ctx = { top := [.ctest nm (docTextOf doc) (pre ++ post)] } := by
+  refine ⟨?_, C11_addtest_named cfg ctx doc call pre post nm hn hincl hs h1 h2⟩
+  have hok := C11_nameOk_of_decomp pre post nm h1 h2
+  simp (decide := true) [Item.wf, hn, hs, hok]
+  omega
 
 /-! ## rendering: signature and warning -/
 
@@ -235,5 +254,30 @@ example : (Item.cmd none (mkCall "add_test" ["NAME", "t", "COMMAND", "run", "t"]
     { top := [.ctest (lit "t") [] [lit "COMMAND", lit "run", lit "t"]] } :=
   C11_addtest_named {} .none none _ [] [lit "COMMAND", lit "run", lit "t"] (lit "t") (by decide) (Or.inr rfl)
     (by decide) (by decide) (by decide)
+
+/-- `add_test(NAME comp COMMAND foo (a b) c)`: a parenthesised group among the arguments -/
+def exGroupCall : Call :=
+  { pre := [.nl false], name := "add_test".toList, sp := 0,
+    args := [.tok [] (.bare (lit "NAME")), .tok [.spaces 1] (.bare (lit "comp")),
+             .tok [.spaces 1] (.bare (lit "COMMAND")), .tok [.spaces 1] (.bare (lit "foo")),
+             .group [.spaces 1] [.tok [] (.bare (lit "a")), .tok [.spaces 1] (.bare (lit "b"))] [],
+             .tok [.spaces 1] (.bare (lit "c"))],
+    close := [] }
+
+example : exGroupCall.render = lit "\nadd_test(NAME comp COMMAND foo (a b) c)" := by decide +kernel
+example : exGroupCall.allTexts =
+    [lit "NAME", lit "comp", lit "COMMAND", lit "foo", lit "(a b)", lit "c"] := by decide +kernel
+/-- the single arguments alone (what was read before the repair) miss the group -/
+example : exGroupCall.singles = [lit "NAME", lit "comp", lit "COMMAND", lit "foo", lit "c"] := by decide +kernel
+
+/-- the group is part of the signature, at its place -/
+example : ((Item.cmd none exGroupCall).spec {} .none).top =
+    [.ctest (lit "comp") [] [lit "COMMAND", lit "foo", lit "(a b)", lit "c"]] := by decide +kernel
+
+example : (Item.cmd none exGroupCall).wf false = true ∧
+    (Item.cmd none exGroupCall).spec {} .none =
+      { top := [.ctest (lit "comp") [] [lit "COMMAND", lit "foo", lit "(a b)", lit "c"]] } :=
+  C11_addtest_all_args {} .none false none exGroupCall [] [lit "COMMAND", lit "foo", lit "(a b)", lit "c"] (lit "comp")
+    (by decide) (Or.inr rfl) (by decide +kernel) (by decide) (by decide)
 
 end Cminx
